@@ -116,6 +116,17 @@ def cases(ctx):
             stride = 1 if (not enc.startswith("priv:") or not ctx.quick) else 2
             for pos in range(0, len(data), stride):
                 yield ("mut", ci, enc, pos)
+    # EVERY single-byte mutation (all 255 other values at every position - the quantifier's words): quick tier for the two smallest
+    # curves and the encodings that carry explicit parameters, thorough tier for every curve and encoding
+    for ci, cur in enumerate(STD):
+        if ctx.quick and cur.name not in ("SECP112r1", "NIST192p"):
+            continue
+        for enc in MAL_ENC:
+            if enc.startswith("str") or enc == "privstr" or (ctx.quick and "explicit" not in enc):
+                continue
+            data, _ = encode(ctx, cur, enc)
+            for pos in range(len(data)):
+                yield ("mut", ci, enc, pos, "all")
 
 
 def sec1_point(cv, size, data):
@@ -238,6 +249,39 @@ def ignored_range(data, dk):
     except D.DerError:
         pass
     return (len(data), len(data))
+
+
+def length_overrun(data, pos, newbyte):
+    """True if `pos` is a length byte of some element of the valid encoding `data` (top level or inside constructed elements) and
+    writing `newbyte` there makes that element's declared end run past the end of its container."""
+    def walk(buf, base, cend):
+        p_ = 0
+        while p_ < len(buf):
+            try:
+                t, c, end = D.read_tlv(buf, p_)
+            except D.DerError:
+                return None
+            hdr_start, content_start = base + p_, base + end - len(c)
+            if hdr_start < pos < content_start:
+                raw = bytearray(buf[p_:end - len(c)])
+                raw[pos - hdr_start] = newbyte
+                l0 = raw[1]
+                if l0 < 0x80:
+                    if len(raw) != 2:
+                        return None
+                    n = l0
+                else:
+                    k = l0 & 0x7F
+                    if k == 0 or len(raw) != 2 + k:
+                        return None
+                    n = int.from_bytes(raw[2:2 + k], "big")
+                return content_start + n > cend
+            if t & 0x20 and content_start <= pos < base + end:
+                return walk(c, content_start, base + end)
+            p_ = end
+        return None
+    r = walk(data, 0, len(data))
+    return bool(r)
 
 
 def der_tree(buf):
@@ -531,16 +575,17 @@ def run_case(ctx, case):
         enc, pos = case[2], case[3]
         data, dk = encode(ctx, cur, enc)
         n = 0
-        for cls in ("^01", "^80", "00", "ff", "+1"):
+        classes = ("^01", "^80", "00", "ff", "+1") if len(case) < 5 else tuple("=%02X" % v for v in range(256))
+        for cls in classes:
             b = bytearray(data)
-            b[pos] = {"^01": b[pos] ^ 1, "^80": b[pos] ^ 0x80, "00": 0, "ff": 0xFF, "+1": (b[pos] + 1) & 0xFF}[cls]
+            b[pos] = int(cls[1:], 16) if cls[0] == "=" else {"^01": b[pos] ^ 1, "^80": b[pos] ^ 0x80, "00": 0, "ff": 0xFF, "+1": (b[pos] + 1) & 0xFF}[cls]
             if bytes(b) == data:
                 continue
             n += 1
             try:
                 decode(dk, bytes(b), cur)
                 ig = ignored_range(data, dk)
-                if dk in ("priv", "pub") and not (ig[0] <= pos < ig[1]) and not der_fits(bytes(b)):
+                if dk in ("priv", "pub") and not (ig[0] <= pos < ig[1]) and length_overrun(data, pos, b[pos]):
                     o.cls = "accepted-truncated-element"
                     o.viol("mut|accepted-overlong-element|%s" % enc.split(":")[0], "%s %s: byte %d %s gives an element whose declared length exceeds "
                            "its container (a truncated element), yet the encoding was accepted" % (cur.name, enc, pos, cls))
